@@ -5,7 +5,8 @@ from .corpus import BY_LANG, CONTENTS, EXT, LANGS
 
 DIRS = ["", "", "src", "src", "src/deep/er", "lib", "x/y/z", "pkg", "pkg/sub", "src/a.py"]
 STEMS = ["a", "b", "c", "d", "K", "m", "w", "main"]
-HIDDEN = [".h.py", ".hid/x.py", "src/.hid/x.py", "src/.h.js", ".hid/deep/y.ts"]
+HIDDEN = [".h.py", ".hid/x.py", "src/.hid/x.py", "src/.h.js", ".hid/deep/y.ts", ".ci/build.py", ".tools/t.js", ".github/a.ts",
+          "src/.ci/c.cs"]
 EXCLUDED = ["tests/t.py", "build/x.py", "node_modules/p/i.js", "src/test/t.py", "venv/lib/v.py", "dist/d.js",
             "src/tests/deep/t.java", "lib/build/b.c"]
 UNSUPPORTED = ["notes.txt", "README", "Makefile", "a.PY", "a.py.bak", "data.json", "src/style.css", "lib/x.h.in"]
@@ -16,8 +17,8 @@ DISTRACTOR_DIRS = ["src", "lib", "pkg", "x/y"]
 GOOD_SHAPES = ("one2", "one15", "one16", "one30", "one31", "one60", "one61", "one75", "multi", "multi2",
                "strings", "nested", "mlhdr", "nonl", "enc_utf8", "multi_ws", "comments", "empty", "ws", "uni", "nocl")
 LONG_SHAPES = ("one31", "one60", "one61", "one75", "multi", "multi2", "nested", "enc_utf8", "enc_latin1", "enc_crlf",
-               "bare31", "bare61", "uni", "nocl", "twins")
-BAD_SHAPES = ("unbal", "half", "closers", "enc_latin1", "enc_utf16", "enc_bom", "enc_crlf")
+               "bare31", "bare61", "uni", "nocl", "twins", "enc_cr", "enc_mixed")
+BAD_SHAPES = ("unbal", "half", "closers", "enc_latin1", "enc_utf16", "enc_bom", "enc_crlf", "enc_cr", "enc_mixed")
 
 
 # other file names Pygments maps to the same seven lexers
@@ -76,7 +77,12 @@ def base_tree(rng, n_lo=3, n_hi=9, p_bad=0.15, long_bias=0.0, weird=0.0, extras=
             continue
         placed[p] = pick_content(rng, lang, p_bad, long_bias)
     if rng.random() < extras:
-        for p in rng.sample(HIDDEN + EXCLUDED + UNSUPPORTED + ODD_SUPPORTED, rng.randint(1, 6)):
+        extra_pool = HIDDEN + EXCLUDED + UNSUPPORTED + ODD_SUPPORTED
+        chosen = rng.sample(extra_pool, rng.randint(1, 6))
+        if rng.random() < 0.3:
+            # several hidden / excluded directories side by side in one listing
+            chosen += [".hid/x.py", ".ci/build.py", ".tools/t.js", ".github/a.ts", "build/x.py", "dist/d.js"]
+        for p in dict.fromkeys(chosen):
             lang = lang_of_path(p) or "py"
             if any(q == p or q.startswith(p + "/") or p.startswith(q + "/") for q in placed):
                 continue
